@@ -55,8 +55,10 @@ def check(ctx):
     cls = repo.cls(NPM, "NonparametricElectionModel")
     f = ctx.fn(NPM, "NonparametricElectionModel.get_unit_prediction_intervals")
     helpers = ("get_unit_prediction_interval_bounds", "_compute_population_correction", "_compute_conf_frac")
+    def _helper(h):  # a method of the class family, or - when it never used self and was moved out - the module function of that name
+        return cls.lookup(h) or repo.mod(NPM).functions.get(h)
     for h in helpers:
-        ctx.require(cls.lookup(h) is not None, f"{h} not found")
+        ctx.require(_helper(h) is not None, f"{h} not found")
     b = ctx.builder(inline=lambda c, call, callee: callee.name in helpers)
     s = b.summarize(f, self_cls=cls)
     ret = s.ret()
@@ -250,7 +252,12 @@ def check(ctx):
     if POP is None:
         return
     # ---- R3 population correction ------------------------------------------------------------------------------
-    ok_min = POP[0] == "call" and ir.show(POP[1]).endswith("min") and POP[2] and ir.column_ref(POP[2][0]) is not None and ir.column_ref(POP[2][0])[1] == "scores"
+    _arg = None
+    if POP[0] == "call" and POP[1][0] == "global" and POP[2]:
+        _arg = POP[2][0]
+    elif POP[0] == "call" and POP[1][0] == "attr" and not POP[2]:
+        _arg = POP[1][1]
+    ok_min = POP[0] == "call" and ir.show(POP[1]).endswith("min") and _arg is not None and ir.column_ref(_arg) is not None and ir.column_ref(_arg)[1] == "scores"  # numpy.min(x) / x.min()
     ctx.ob("C04.R3.min", f"{f.qualname}|correction = minimum remaining score", ok_min, f.where(),
            "population correction = min of the scores that pass the filter" if ok_min else f"population correction is {ir.show(POP, maxdepth=3)}")
     if not ok_min:
@@ -276,7 +283,7 @@ def check(ctx):
            else f"filter is {qs}: the documented rule is the strict 'percent > q'")
     if not mq:
         return
-    pc_fn = cls.lookup("_compute_population_correction")
+    pc_fn = _helper("_compute_population_correction")
     qparam_ok = qname in pc_fn.params
     arg_ok = False
     if qname == "<inlined>":
@@ -287,9 +294,9 @@ def check(ctx):
         # summarise again without inlining the helper: the argument bound to that parameter must be the level of R2
         b2 = ctx.builder(inline=lambda c, call, callee: callee.name in ("get_unit_prediction_interval_bounds", "_compute_conf_frac"))
         s2 = b2.summarize(f, self_cls=cls)
-        calls2 = [x for _, _, t_, _ in s2.assigns for x in ir.walk(t_) if x[0] == "call" and x[1] == ("attr", SELF, "_compute_population_correction")]
+        calls2 = [x for _, _, t_, _ in s2.assigns for x in ir.walk(t_) if x[0] == "call" and x[1] in (("attr", SELF, "_compute_population_correction"), ("global", pc_fn.fq))]
         if calls2:
-            bound = ir.bind_args(pc_fn, calls2[0][2], calls2[0][3], method=True) or {}
+            bound = ir.bind_args(pc_fn, calls2[0][2], calls2[0][3], method=pc_fn.cls is not None) or {}
             a = bound.get(qname)
             want_q = symexpr.Normalizer().norm(symexpr.parse("alpha * (1 + 1 / ncal)"))
             if a is not None:
